@@ -98,7 +98,10 @@ def run(ctx, n, faults):
     impl = [None] * len(cases)
     for si, (status, res) in enumerate(results):
         if status != "ok":
+            first = res.get("failed_job_index", 0) if isinstance(res, dict) else 0
             for j, job in enumerate(jobs[si]["jobs"]):
+                if j < first:
+                    continue
                 st1, r1 = sc.run_worker("proto_worker", {"jobs": [job]}, timeout=120)
                 if st1 != "ok":
                     c = shards[si][j]
@@ -108,7 +111,7 @@ def run(ctx, n, faults):
                         "did not finish within 120 s" if st1 == "timeout" else "died: %s" % str(r1)[:300]),
                         {"correspondence": "X-proto-det", "theorems": THEOREMS, "case": d}, no_input=True)
                     return len(cases), [], []
-            raise RuntimeError("proto_worker failed as a batch but not job by job: %r" % (str(res)[:800],))
+            raise RuntimeError("proto_worker failed: %r" % (str(res)[:800],))
         for j, r in enumerate(res):
             impl[si + j * nsh] = r
     encs = [enc(c) for c in cases]
